@@ -205,4 +205,85 @@ def specFind (l : Spec) (node : Option Ref) (v : Val) : Option Ref :=
 def specClear (l : Spec) (fr : Bool) : Spec × List Val :=
   ([], if fr then (l.map (·.2)).filter (· ≠ 0) else [])
 
+/-! ## Operation histories
+
+Handles are the `Ref`s returned by earlier insert/append calls. The reference
+side keeps, besides the sequence, the number `k` of nodes allocated so far (the
+next handle is `Ref.node k`); it is undefined (`none`) exactly when a call is given
+a handle that is not in the sequence — the API cannot check that and the C code
+would touch freed memory. -/
+
+inductive Op where
+  | insert (node : Option Ref) (v : Val)
+  | append (node : Option Ref) (v : Val)
+  | remove (node : Ref) (fr : Bool)
+  | next (node : Ref)
+  | prev (node : Ref)
+  | first
+  | last
+  | find (node : Option Ref) (v : Val)
+  | clear (fr : Bool)
+  | dump
+  deriving Repr, DecidableEq
+
+inductive Res where
+  | node (r : Ref)
+  | optNode (r : Option Ref)
+  | removed (next : Option Ref) (freed : List Val)
+  | cleared (freed : List Val)
+  | contents (size : Nat) (fwd : List (Ref × Val)) (bwd : List Ref)
+  deriving Repr, DecidableEq
+
+def step (s : LL) : Op → Except Err (LL × Res)
+  | .insert n v => do let (s, r) ← insert s n v; pure (s, .node r)
+  | .append n v => do let (s, r) ← append s n v; pure (s, .node r)
+  | .remove n fr => do let (s, nx, f) ← remove s n fr; pure (s, .removed nx f)
+  | .next n => do let r ← next s n; pure (s, .optNode r)
+  | .prev n => do let r ← prev s n; pure (s, .optNode r)
+  | .first => pure (s, .optNode (first s))
+  | .last => pure (s, .optNode (last s))
+  | .find n v => do let r ← find s n v; pure (s, .optNode r)
+  | .clear fr => do let (s, f) ← clear s fr; pure (s, .cleared f)
+  | .dump => do
+    let fw ← toList s
+    let bw ← toListRev s
+    pure (s, .contents s.size fw bw)
+
+def handleOk (l : Spec) : Option Ref → Bool
+  | none => true
+  | some r => (l.map (·.1)).contains r
+
+def specStep (l : Spec) (k : Nat) : Op → Option (Spec × Nat × Res)
+  | .insert n v => if handleOk l n then some (specInsert l n (.node k) v, k + 1, .node (.node k)) else none
+  | .append n v => if handleOk l n then some (specAppend l n (.node k) v, k + 1, .node (.node k)) else none
+  | .remove n fr =>
+    if handleOk l (some n) then
+      let (l', nx, f) := specRemove l n fr
+      some (l', k, .removed nx f)
+    else none
+  | .next n => if handleOk l (some n) then some (l, k, .optNode (specNext l n)) else none
+  | .prev n => if handleOk l (some n) then some (l, k, .optNode (specPrev l n)) else none
+  | .first => some (l, k, .optNode (l.head?.map (·.1)))
+  | .last => some (l, k, .optNode (l.getLast?.map (·.1)))
+  | .find n v => if handleOk l n then some (l, k, .optNode (specFind l n v)) else none
+  | .clear fr => let (l', f) := specClear l fr; some (l', k, .cleared f)
+  | .dump => some (l, k, .contents l.length l (l.map (·.1)).reverse)
+
+def run (s : LL) : List Op → Except Err (LL × List Res)
+  | [] => .ok (s, [])
+  | op :: ops => do
+    let (s1, r) ← step s op
+    let (s2, rs) ← run s1 ops
+    pure (s2, r :: rs)
+
+def specRun (l : Spec) (k : Nat) : List Op → Option (Spec × Nat × List Res)
+  | [] => some (l, k, [])
+  | op :: ops =>
+    match specStep l k op with
+    | none => none
+    | some (l1, k1, r) =>
+      match specRun l1 k1 ops with
+      | none => none
+      | some (l2, k2, rs) => some (l2, k2, r :: rs)
+
 end MgModel.C11.LL
